@@ -248,6 +248,14 @@ fn norm_loc(loc: &str) -> String {
     if let Some(r) = loc.strip_prefix("/repo/") {
         return r.to_string();
     }
+    // the code under test may be built from another checkout (VERIF_REPO: snapshot sweeps, mutation runs)
+    if let Ok(root) = std::env::var("VERIF_REPO") {
+        if !root.is_empty() {
+            if let Some(r) = loc.strip_prefix(&format!("{}/", root.trim_end_matches('/'))) {
+                return r.to_string();
+            }
+        }
+    }
     if let Some(i) = loc.find("/registry/src/") {
         if let Some(j) = loc[i + 14..].find('/') {
             return format!("dep:{}", &loc[i + 14 + j + 1..]);
